@@ -272,6 +272,8 @@ def _gen(case):
         w = pos.split(" ")
         rows.append(" ".join(w[:-1]) if len(w) > 1 else pos + "zz")
         rows.append(pos + "zz")
+        rows.append(pos.upper())          # the same line in other letter case: matches iff the rule carries (?i)
+        rows.append(pos.capitalize())
         labels.append("near-miss")
     try:
         acl = compile_acl_text(sep.join(pattern.split(" ")) + "\n", vendor)
